@@ -47,7 +47,9 @@ def history_case(case):
                 faults = [{'kind': 'cert', 'action': 'cert_body', 'body': ph['bad_first_download'], 'max_fires': 1, 'id': 'bad-first-download'}]
             ca.set_plan({'default': {'chain_lens': cum_chain, 'lifetimes_s': cum_life, 'pem_styles': case.get('pem_styles'),
                                      # with a re-used key some CAs hand the very same end-entity certificate out again, whatever the chain of the day
-                                     'same_leaf_for_same_key': bool(case.get('same_leaf'))}, 'faults': faults})
+                                     'same_leaf_for_same_key': bool(case.get('same_leaf')),
+                                     # some CAs end the chain they serve with their self-signed root
+                                     'chain_with_root': bool(case.get('with_root'))}, 'faults': faults})
             cfg = S.std_config(d, ca, [{'name': 'c0', 'identifiers': S.ids('h.example.org'), 'key_type': ph['key_type'],
                                         'file_name_format': nm['fmt'],
                                         'kp_reuse': ph.get('kp_reuse', False)}],
@@ -353,7 +355,7 @@ def run(tier):
         names = [None, None, {'fmt': '{{ name }}.{{ ext }}', 'cert_ext': 'crt', 'pk_ext': 'key'}, {'fmt': '{{ name }}.{{ file_type }}.{{ ext }}', 'cert_ext': 'cer', 'pk_ext': None},
                  None, {'fmt': '{{ name }}-{{ file_type }}.{{ ext }}', 'cert_ext': None, 'pk_ext': 'key'}][i % 6]
         cases.append({'i': i, 'phases': phases, 'pem_styles': styles if i % 2 else ['canonical'], 'names': names,
-                      'same_leaf': i % 3 == 1 and i % 2 == 0})
+                      'same_leaf': i % 3 == 1 and i % 2 == 0, 'with_root': i % 4 == 2})
     results = C.parallel(cases, history_case)
     for res in results:
         chk.evaluations += 1
